@@ -98,6 +98,9 @@ impl<T> SharedFd<T> {
                 })
                 .await
             } else {
+                // Release this handle through `Drop`, so that the registered closer is
+                // woken if this was the last other handle.
+                drop(Self(inner));
                 None
             }
         }
